@@ -11,7 +11,19 @@ def _strip(x):
     return x
 
 
-def take(core, volatile=False):
+TIMES = ('event_time', 'local_mtime', 'start', 'stop', 'start_monotonic', 'stop_monotonic', 'uptime',
+         'last_event_mtime', 'checking_time')
+
+
+def _strip_keys(x, keys):
+    if isinstance(x, dict):
+        return {k: _strip_keys(v, keys) for k, v in x.items() if k not in keys}
+    if isinstance(x, (list, tuple)):
+        return [_strip_keys(v, keys) for v in x]
+    return x
+
+
+def take(core, volatile=False, times=True):
     rpc = core.rpc_intf
     snap = {
         'state': rpc.get_supvisors_state(),
@@ -30,7 +42,8 @@ def take(core, volatile=False):
         'forced': {p.namespec: (p.forced_state, p.forced_reason) for a in core.context.applications.values()
                    for p in a.processes.values()},
     }
-    return snap if volatile else _strip(snap)
+    snap = snap if volatile else _strip(snap)
+    return snap if times else _strip_keys(snap, TIMES)
 
 
 def diff(a, b, path=''):
